@@ -240,10 +240,11 @@ Call ==                  \* the rule's functor: children's values in right-side 
         THEN nodes' = nodes /\ vals' = vals /\ ev' = <<"tau">>
         ELSE /\ nodes' = Append(nodes, [k |-> IF IsDflt(r) THEN 2 ELSE 1, sym |-> IF IsDflt(r) THEN -1 ELSE r, ch |-> args, off |-> -1, len |-> -1, line |-> -1, col |-> -1])
              /\ vals' = Append(rest, id)
-             /\ ev' = IF IsDflt(r) THEN <<"dcall", id, args, [i \in 1..n |-> lc(args[i])[1]], [i \in 1..n |-> lc(args[i])[2]]>>
+             /\ ev' = IF IsDflt(r) THEN <<"dcall", id, args, [i \in 1..n |-> lc(args[i])[1]], [i \in 1..n |-> lc(args[i])[2]], 0>>
                       \* C13: a functor attached with >>= receives the caller's very object (identity 1), const iff the caller's is
-                      ELSE IF IsCtx(r) THEN <<"ccall", r, id, args, [i \in 1..n |-> lc(args[i])[1]], [i \in 1..n |-> lc(args[i])[2]], 1, IF opt.cat = 2 THEN 1 ELSE 0>>
-                      ELSE IF GR(g).obsC THEN <<"call", r, id, args, [i \in 1..n |-> lc(args[i])[1]], [i \in 1..n |-> lc(args[i])[2]]>>
+                      ELSE IF IsCtx(r) THEN <<"ccall", r, id, args, [i \in 1..n |-> lc(args[i])[1]], [i \in 1..n |-> lc(args[i])[2]], 1, IF opt.cat = 2 THEN 1 ELSE 0, 0>>
+                      \* (last component: number of values handed over as lvalues - every value must arrive movable, i.e. 0)
+                      ELSE IF GR(g).obsC THEN <<"call", r, id, args, [i \in 1..n |-> lc(args[i])[1]], [i \in 1..n |-> lc(args[i])[2]], 0>>
                       ELSE <<"tau">>
   /\ ph' = "top" /\ red' = -1
   /\ UNCHANGED <<g, inp, opt, stack, sstack, it, endIt, cur, line, col, mode, status, msgs>>
